@@ -760,6 +760,7 @@ void verif_hook(unsigned p, uint64_t a, uint64_t b, uint64_t c, uint64_t d)
 		EMIT("\"e\":\"Stop\"");
 		RootsimStop();
 	}
+	vs_guide_tag(thr_id());
 	vs_yield(p, (unsigned long)a);
 }
 
@@ -938,7 +939,7 @@ int main(int argc, char **argv)
 	next_mid = 1;
 	batch_size = 64;
 	max_lines = 40000;
-	const char *model = NULL, *outp = NULL, *script = NULL, *stats = NULL;
+	const char *model = NULL, *outp = NULL, *script = NULL, *stats = NULL, *guide = NULL;
 	int net_mode = 0;
 	unsigned skew = 0, park = 0;
 	int threads = 2, ckpt = 0, policy = 0;
@@ -962,6 +963,7 @@ int main(int argc, char **argv)
 		else if(!strcmp(a, "--policy")) policy = atoi(v), ++i;
 		else if(!strcmp(a, "--budget")) budget = strtoul(v, NULL, 10), ++i;
 		else if(!strcmp(a, "--script")) script = v, ++i;
+		else if(!strcmp(a, "--guide")) guide = v, ++i;
 		else if(!strcmp(a, "--stop-at")) stop_at = atol(v), ++i;
 		else if(!strcmp(a, "--stop-lp")) sscanf(v, "%d:%d", &stop_lp, &stop_cnt), ++i;
 		else if(!strcmp(a, "--term-time")) term_time = atof(v), ++i;
@@ -1004,6 +1006,11 @@ int main(int argc, char **argv)
 #endif
 	if(script)
 		vs_load_script(script);
+	if(guide) {
+		/* a behaviour of TimeWarpMC: the order of the accesses to memory shared between workers */
+		static const unsigned shared[] = {VP_Q_PUSH, VP_Q_DRAIN, VP_FLAG, VP_ANTI_LOCAL, VP_UNDO, 100, 101}; /* 100/101: fake MPI send/receive */
+		vs_load_guide(guide, shared, 7);
+	}
 	if(park)
 		vs_park(1, VP_EXTRACT, park); /* the worker with the highest thread id is created first: delay it when it enters its main loop */
 	if(skew)
@@ -1014,6 +1021,12 @@ int main(int argc, char **argv)
 	fprintf(out, "{\"n\":%lu,\"thr\":-1,\"e\":\"End\",\"ret\":%d,\"bad\":%d,\"steps\":%lu}\n", ++seqno, r, contract_bad,
 	    vs_steps());
 	fclose(out);
+	if(guide) {
+		unsigned long gp, gl;
+		const char *why;
+		int st = vs_guide_status(&gp, &gl, &why);
+		printf("GUIDE status=%d pos=%lu len=%lu %s\n", st, gp, gl, why);
+	}
 	return 0;
 }
 #endif /* TW_SHARED_PART */
